@@ -169,4 +169,5 @@ Definition dec (n : nat) : bytes := dec_fuel (S n) n [].
 Inductive nsop :=
 | ReadNs (m : option nat)         (* read_ns(maxsize=_UNSET | n) *)
 | WriteNs (payload : bytes)
-| NsSetMaxsize (n : nat).
+| NsSetMaxsize (n : nat)
+| NsFlush.                        (* ns.bsock.flush(): what a writer calls after an interrupted write_ns *)
